@@ -103,12 +103,15 @@ definition.  Every rule preserves results, exceptions and evaluation order:
       method of the caller's class, whose only ``return`` is its last statement, is spliced into the caller when it is the whole
       right-hand side of a statement (``x = _h(a)``, ``x[k] = _h(a)``, ``return _h(a)``, ``_h(a)``): parameters bound to the
       arguments in order, locals renamed apart (conditions at ``_inline_helpers``) — extracting / inlining a helper is invisible
+  N6  ``x = a if c else b`` (one plain name as target) -> ``if c: x = a`` / ``else: x = b``
+  N7  ``x = {E for a in A for b in B if c …}`` -> ``x = set()`` and the nested loops adding ``E`` (loop variables renamed apart)
   sets  ``x in <module-level / class-level set or frozenset of str / int constants>`` -> ``PyRt.contains_set`` on the members in
         sorted order (hoisting an inline display into a named constant; iteration order of a set is unobservable through ``in``)
   names renaming a local is invisible already: Lean's ``do`` notation orders the state of a loop by declaration, not by name
 Subset additions of x4: list / tuple displays with starred elements (``[*a, x, *b]``: unpacked left to right into a fresh
 list), oracle methods on a local bound once by an oracle constructor (``p = pathlib.PurePosixPath(x)`` … ``p.is_absolute()``),
-``PyRt.str_partition`` (one-character separator; defined through ``splitOnMax c 1``).
+``TABLE[k](a, b)`` and ``k in TABLE`` on a module-level table of callables, ``x = None`` sentinels next to the one binding that
+decides the class of a local, ``PyRt.str_partition`` (one-character separator; defined through ``splitOnMax c 1``).
 Checks made by the translator (a failure makes the function unsupported):
   * a local changed inside a ``try`` body (other than by its last simple statement) must not be read in a handler or after
     a handler that falls through: Lean's ``try … catch`` restores the locals of the ``try`` start;
@@ -503,6 +506,41 @@ class _X4Normaliser(ast.NodeTransformer):
         g = as_genexp(node)
         if g is not None:
             return ast.copy_location(ast.GeneratorExp(elt=g[0], generators=g[1]), node)
+        return node
+
+    def visit_Assign(self, node):
+        self.generic_visit(node)
+        # N7: `x = {E for a in A for b in B if c …}` -> `x = set()` and the nested loops adding `E` (loop variables renamed apart:
+        # a comprehension has a scope of its own)
+        if len(node.targets) == 1 and isinstance(node.targets[0], ast.Name) and isinstance(node.value, ast.SetComp) \
+                and all(isinstance(g.target, ast.Name) and not g.is_async for g in node.value.generators):
+            self.n = getattr(self, "n", 0) + 1
+            x = node.targets[0].id
+            ren = {g.target.id: f"__sc{self.n}_{g.target.id}" for g in node.value.generators}
+            import copy
+            body = [ast.Expr(value=ast.Call(func=ast.Attribute(value=ast.Name(id=x, ctx=ast.Load()), attr="add", ctx=ast.Load()),
+                                            args=[_Renamer(ren).visit(copy.deepcopy(node.value.elt))], keywords=[]))]
+            seen = dict(ren)
+            for gi in range(len(node.value.generators) - 1, -1, -1):
+                g = node.value.generators[gi]
+                inner = {k: v for k, v in ren.items() if k in [h.target.id for h in node.value.generators[:gi]]}
+                for c in reversed(g.ifs):
+                    vis = {k: v for k, v in ren.items() if k in [h.target.id for h in node.value.generators[:gi + 1]]}
+                    body = [ast.If(test=_Renamer(vis).visit(copy.deepcopy(c)), body=body, orelse=[])]
+                body = [ast.For(target=ast.Name(id=ren[g.target.id], ctx=ast.Store()), iter=_Renamer(inner).visit(copy.deepcopy(g.iter)),
+                                body=body, orelse=[], type_comment=None)]
+            init = ast.Assign(targets=[ast.Name(id=x, ctx=ast.Store())], value=ast.Call(func=ast.Name(id="set", ctx=ast.Load()), args=[], keywords=[]),
+                              type_comment=None)
+            out = [init] + body
+            for st_ in out:
+                for n_ in ast.walk(st_):
+                    n_.lineno, n_.end_lineno = node.lineno, getattr(node, "end_lineno", node.lineno)
+                    n_.col_offset, n_.end_col_offset = getattr(node, "col_offset", 0), getattr(node, "end_col_offset", 0)
+            return out
+        # N6: `x = a if c else b` -> `if c: x = a` / `else: x = b` (one plain name as target)
+        if len(node.targets) == 1 and isinstance(node.targets[0], ast.Name) and isinstance(node.value, ast.IfExp):
+            mk = lambda v: ast.copy_location(ast.Assign(targets=[ast.Name(id=node.targets[0].id, ctx=ast.Store())], value=v, type_comment=None), node)
+            return ast.copy_location(ast.If(test=node.value.test, body=[mk(node.value.body)], orelse=[mk(node.value.orelse)]), node)
         return node
 
     def visit_AugAssign(self, node):
